@@ -64,6 +64,20 @@ def cases(tier, rng):
     return out
 
 
+def _violate(r, what, witness=None, mechanism=None, sig=None):
+    """Record at most two violations per mechanism key and case, so that a frequent (possibly already known)
+    mechanism cannot crowd a different one out of the bounded violation list of `Res`."""
+    k = f"violations[{mechanism}]"
+    r.count(k)
+    if r.counters[k] <= 2:
+        r.violate(what, witness, mechanism, sig)
+    else:
+        r.evals += 1
+        if sig is not None:
+            r.sigs.add(sig if isinstance(sig, str) else repr(sig))
+
+
+
 def run_case(case):
     import numpy as np
 
@@ -79,7 +93,7 @@ def run_case(case):
     try:
         {"helpers": _helpers, "cfl": _cfl, "uniform_reduce": _uniform_reduce, "placement": _placement}[case["kind"]](case, r, rng)
     except gc.GridContractError as e:
-        r.violate(f"contract: {e}", e.witness, mechanism=e.mechanism)
+        _violate(r, f"contract: {e}", e.witness, mechanism=e.mechanism)
     for k, v in gc.COUNTS.items():
         d = v - before.get(k, 0)
         if d:
@@ -151,7 +165,7 @@ def _helpers(case, r, rng):
         E = [np.asarray(grid.edges(a)) for a in range(3)]
         for a in range(3):
             if E[a].dtype != edges[a].dtype or not np.array_equal(E[a], edges[a]):
-                r.violate("edges(axis) does not return the constructor's edge array", {"axis": a, "edges": edges[a].tolist()})
+                _violate(r, "edges(axis) does not return the constructor's edge array", {"axis": a, "edges": edges[a].tolist()})
         r.branch(f"grid:{kind}")
         r.branch(f"origin:{origin}")
         if case["extents"]:  # every distinct slice shape costs an XLA compilation inside the library
@@ -198,7 +212,7 @@ def _snap_queries(r, rng, grid, a, e, kind, origin):
             if v:
                 r.ok(sig)
             else:
-                r.violate(
+                _violate(r, 
                     f"coord_to_index(snap={snap}) is not the {snap} edge: {detail}",
                     {"edges": e64.tolist(), "dtype": str(e.dtype), "coord": x, "snap": snap, "got": int(got)},
                     sig=sig,
@@ -206,7 +220,7 @@ def _snap_queries(r, rng, grid, a, e, kind, origin):
     # unknown snapping rule must be rejected
     try:
         grid.coord_to_index(a, float(e64[0]), snap="closest")
-        r.violate("unknown snapping rule accepted", {"snap": "closest"})
+        _violate(r, "unknown snapping rule accepted", {"snap": "closest"})
     except ValueError:
         r.ok(None)
     # length_to_cell_count = snapping of edges[0] + length; negative lengths are rejected
@@ -220,10 +234,10 @@ def _snap_queries(r, rng, grid, a, e, kind, origin):
             if v:
                 r.ok(("length_to_cell_count", snap, kind, origin))
             else:
-                r.violate(f"length_to_cell_count(snap={snap}): {detail}", {"edges": e64.tolist(), "length": L, "snap": snap, "got": int(got)})
+                _violate(r, f"length_to_cell_count(snap={snap}): {detail}", {"edges": e64.tolist(), "length": L, "snap": snap, "got": int(got)})
     try:
         grid.length_to_cell_count(a, -abs(ext) * 0.1 - 1e-300)
-        r.violate("negative length accepted by length_to_cell_count", {"edges": e64.tolist()})
+        _violate(r, "negative length accepted by length_to_cell_count", {"edges": e64.tolist()})
     except ValueError:
         r.ok(None)
 
@@ -255,7 +269,7 @@ def _interval_queries(r, rng, grid, a, e, kind, origin):
                 if v:
                     r.ok(sig)
                 elif v is False:
-                    r.violate(
+                    _violate(r, 
                         f"bounds_for_anchor: {detail}",
                         {"edges": e64.tolist(), "size": size, "anchor": t, "position": pos, "got": [int(x) for x in got]},
                         sig=sig,
@@ -267,7 +281,7 @@ def _interval_queries(r, rng, grid, a, e, kind, origin):
                 if abs(float(ac) - want) <= tol + 1e-9 * abs(want):
                     r.ok(None)
                 else:
-                    r.violate("anchor_coordinate inconsistent with the edges", {"edges": e64.tolist(), "bounds": [int(x) for x in got], "position": pos, "got": float(ac), "want": want})
+                    _violate(r, "anchor_coordinate inconsistent with the edges", {"edges": e64.tolist(), "bounds": [int(x) for x in got], "position": pos, "got": float(ac), "want": want})
                 if pos == 0.0:
                     got = grid.bounds_for_center(a, t, size)
                     v, detail = gc.judge_bounds_for_center(e, t, size, got)
@@ -276,7 +290,7 @@ def _interval_queries(r, rng, grid, a, e, kind, origin):
                     if v:
                         r.ok(sig)
                     elif v is False:
-                        r.violate(
+                        _violate(r, 
                             f"bounds_for_center: {detail}",
                             {"edges": e64.tolist(), "size": size, "center": t, "got": [int(x) for x in got]},
                             sig=sig,
@@ -290,7 +304,7 @@ def _interval_queries(r, rng, grid, a, e, kind, origin):
                 r.ok(("reject", which, "nonpositive" if bad <= 0 else "too_large"))
                 r.branch("interval_rejected")
                 continue
-            r.violate(f"bounds_for_{which} answered an impossible size {bad} on {n} cells with {got}", {"edges": e64.tolist(), "size": bad})
+            _violate(r, f"bounds_for_{which} answered an impossible size {bad} on {n} cells with {got}", {"edges": e64.tolist(), "size": bad})
 
 
 def _extent_queries(r, rng, grid, E, kind, origin):
@@ -303,7 +317,7 @@ def _extent_queries(r, rng, grid, E, kind, origin):
     sig = ("extent", kind, origin)
     wit = {"edges": [e.tolist() for e in E64]}
     if tuple(grid.shape) != tuple(ns):
-        r.violate("shape != len(edges)-1", {**wit, "got": list(grid.shape)})
+        _violate(r, "shape != len(edges)-1", {**wit, "got": list(grid.shape)})
     W = [np.diff(e) for e in E64]
     mins = [float(w.min()) for w in W]
     rt = 1e-9 if not f32 else 1e-5
@@ -431,7 +445,7 @@ def _cfl(case, r, rng):
             if v:
                 r.ok(sig)
             else:
-                r.violate(f"{via}: {detail}", {**desc, "via": via, "dt": float(dt), "x_edges": E[0][:4].tolist()}, mechanism=mech, sig=sig)
+                _violate(r, f"{via}: {detail}", {**desc, "via": via, "dt": float(dt), "x_edges": E[0][:4].tolist()}, mechanism=mech, sig=sig)
 
         judge(grid.cfl_time_step(cf), "RectilinearGrid.cfl_time_step")
         cfg = fdtdx.SimulationConfig(time=1e-13, grid=grid, backend="cpu", dtype=jnp.float64, courant_factor=cf)
@@ -442,7 +456,7 @@ def _cfl(case, r, rng):
             if abs(cfgp.courant_number - cf / 3**0.5) <= 1e-12:
                 r.ok(None)
             else:
-                r.violate("courant_number != courant_factor/sqrt(3)", {"cf": cf, "got": cfgp.courant_number})
+                _violate(r, "courant_number != courant_factor/sqrt(3)", {"cf": cf, "got": cfgp.courant_number})
         if r.sample is None:
             r.sample = {**{k: v for k, v in desc.items() if k != "edges"}, "dt": float(grid.cfl_time_step(cf))}
 
@@ -478,9 +492,9 @@ def _uniform_reduce(case, r, rng):
             if abs(us - s) <= 1e-14 + 1e-4 * s:
                 r.ok(None)
             else:
-                r.violate("uniform_spacing far from the constructed spacing", {"spacing": s, "got": us})
+                _violate(r, "uniform_spacing far from the constructed spacing", {"spacing": s, "got": us})
         else:
-            r.violate("equispaced edges are not detected as uniform", {"spacing": s, "shape": n3, "offset_class": off_cls, "dtype": dt.__name__}, sig=sig)
+            _violate(r, "equispaced edges are not detected as uniform", {"spacing": s, "shape": n3, "offset_class": off_cls, "dtype": dt.__name__}, sig=sig)
         # one width off by >= 1 %
         n3b = [max(2, n) for n in n3]
         ax = int(rng.integers(3))
@@ -500,11 +514,11 @@ def _uniform_reduce(case, r, rng):
             r.ok(sig)
             try:
                 g2.uniform_spacing
-                r.violate("uniform_spacing answered on a non-uniform grid", {"edges": [e.tolist() for e in ed2]})
+                _violate(r, "uniform_spacing answered on a non-uniform grid", {"edges": [e.tolist() for e in ed2]})
             except ValueError:
                 r.ok(None)
         else:
-            r.violate("a width deviating by >= 1% is labelled uniform", {"spacing": s, "shape": n3b, "axis": ax, "cell": where, "relative_deviation": dev}, sig=sig)
+            _violate(r, "a width deviating by >= 1% is labelled uniform", {"spacing": s, "shape": n3b, "axis": ax, "cell": where, "relative_deviation": dev}, sig=sig)
 
         # ---- reduce_symmetric ----------------------------------------------------------------
         ns = [int(rng.choice([1, 2, 3, 4, 6, 9, 10])) for _ in range(3)]
@@ -545,11 +559,11 @@ def _uniform_reduce(case, r, rng):
                     r.ok(sig)
                     r.branch("reduce_rejected")
                 else:
-                    r.violate("reduce_symmetric rejected a mirror-symmetric even grid", wit, sig=sig)
+                    _violate(r, "reduce_symmetric rejected a mirror-symmetric even grid", wit, sig=sig)
                 continue
             r.count("reduce_judged")
             if must_raise:
-                r.violate("reduce_symmetric accepted an odd or asymmetric axis", wit, sig=sig)
+                _violate(r, "reduce_symmetric accepted an odd or asymmetric axis", wit, sig=sig)
                 continue
             good = True
             for a in range(3):
@@ -557,13 +571,13 @@ def _uniform_reduce(case, r, rng):
                 got = np.asarray(red.edges(a))
                 if got.shape != want.shape or not np.array_equal(got, want):
                     good = False
-                    r.violate("reduced edges are not the kept upper half", {**wit, "axis": a, "got": got.tolist(), "want": want.tolist()}, sig=sig)
+                    _violate(r, "reduced edges are not the kept upper half", {**wit, "axis": a, "got": got.tolist(), "want": want.tolist()}, sig=sig)
                 if not np.array_equal(np.asarray(g3.edges(a)), snap[a]):
                     good = False
-                    r.violate("reduce_symmetric changed the original grid", wit, sig=sig)
+                    _violate(r, "reduce_symmetric changed the original grid", wit, sig=sig)
             if tuple(red.shape) != tuple(ns[a] if tpl[a] == 0 else ns[a] // 2 for a in range(3)):
                 good = False
-                r.violate("reduced shape is not halved on the symmetric axes", {**wit, "got": list(red.shape)}, sig=sig)
+                _violate(r, "reduced shape is not halved on the symmetric axes", {**wit, "got": list(red.shape)}, sig=sig)
             if good:
                 r.ok(sig)
                 r.branch("reduce_accepted")
